@@ -59,7 +59,7 @@ structure EmpInv (s : State) : Prop where
 theorem isEmptyCell_iff (s : State) (c : Coord) : s.isEmptyCell c = true ↔ ∀ p ∈ s.agents, p.2 ≠ c := by
   simp [State.isEmptyCell]
 
-theorem EmpInv_init (impl : Impl) (dims : List Nat) (cap : Nat) : EmpInv (init impl dims cap) := by
+theorem EmpInv_init (impl : Impl) (dims : List Nat) (cap : Option Nat) : EmpInv (init impl dims cap) := by
   constructor
   · intro h
     simp only [init] at h
